@@ -578,6 +578,26 @@ impl World {
 				if self.revoked_after_broadcast.contains(&n) && refailed.is_empty() {
 					ctx = " [consequence of C05-2: this node revoked a commitment it had already broadcast (the ChannelForceClosed update was lost in a crash and the restarted node resumed the channel); the commitment confirmed and the peer took the funds with justice transactions]".to_string();
 				}
+				if ctx.is_empty() {
+					let stranded: Vec<usize> = self
+						.broadcast_on_lost_state
+						.iter()
+						.filter(|(node, _)| *node == n)
+						.map(|(_, ci)| *ci)
+						.filter(|ci| {
+							let seen = self.nodes[n].broadcaster.first_seen.lock().unwrap();
+							self.chain
+								.confirmed_spender(&self.chans[*ci].funding)
+								.map_or(false, |(_, tx)| seen.contains_key(&tx.compute_txid()))
+						})
+						.collect();
+					if !stranded.is_empty() {
+						ctx = format!(
+							" [channel {:?}: this node's own commitment confirmed, but it had been broadcast from ChannelMonitor state whose writes were still InProgress when the node crashed; the restarted monitor predates that commitment and does not recover its outputs]",
+							stranded
+						);
+					}
+				}
 				self.violate(
 					prop,
 					&oracle,
